@@ -264,10 +264,10 @@ func (r *Reconciler) reconcileValidate(ctx context.Context, proposal *configapi.
 			rollbackIndex = config.Index
 			rollbackValues = make(map[string]*configapi.PathValue)
 			for path, changeValue := range details.Change.Values {
-				deletedParentPath, deletedParentValue := applyChangeToConfig(changeValues, path, changeValue)
-				if deletedParentValue != nil {
-					rollbackValues[deletedParentPath] = deletedParentValue
-				}
+				// (A tombstone above the path is not part of what a rollback restores: the stored configuration
+				// keeps it – a value written beneath it later outlives it by its index – and re-applying it with the
+				// index of the rollback would delete everything written beneath it since, on the target too.)
+				_, _ = applyChangeToConfig(changeValues, path, changeValue)
 				if configValue, ok := config.Values[path]; ok {
 					rollbackValues[path] = configValue
 				} else {
